@@ -197,7 +197,7 @@ def main(argv=None):
         if hasattr(module, 'shrink'):
             try:
                 smaller = module.shrink(ctx, key, entry)
-                if smaller is not None:
+                if smaller is not None and smaller[0] is not None:
                     entry = dict(entry, case=smaller[0], detail=smaller[1] or entry.get('detail'))
                     found_by = 'generation+shrink'
             except BaseException:  # pylint: disable=broad-except
